@@ -8,7 +8,7 @@ RULE = ('Engine A: FULL/DEV configuration spaces x n_designs in {1,2,5,50}; per 
         'enumeration of ALL legal designs over the admitted geos (itertools.product over per-geo options), constraints '
         'from raw data, score tuple composed by the oracle from fresh library diagnostics on reference series. '
         'THRESH: budget/share/volume bounds between every two consecutive critical values; REUSE: the same configurations '
-        'on a data object that already served another matched-markets object. Asserted: result subset of feasible set, distinct, |R| >= min(k,|F_must|), no non-exempt feasible design '
+        'on a data object that already served another matched-markets object; UNITS: DEV(4,1) on the panel scaled by 2^20 and 2^-20. Asserted: result subset of feasible set, distinct, |R| >= min(k,|F_must|), no non-exempt feasible design '
         'outside R scores higher than the worst of R, non-increasing order. Exemption read generously (any subset '
         'S of T containing the fixed treatment geos with optimistic budget outside the range). Non-trivial = '
         '|F_must| > k (something had to be left out); distinct = distinct case.')
@@ -29,6 +29,11 @@ def cases(tier, seed):
     if tier == 'thorough':
         out += spaces.threshold_space({'name': 'B', 'G': 5, 'T': 12}, methods=('exhaustive_search',), base_kw={'n_designs': 3})
         out += spaces.threshold_space({'name': 'A', 'G': 4, 'T': 12}, methods=('exhaustive_search',), base_kw={'n_designs': 1})
+    # responses in other units (x 2^20, x 2^-20): the score's last entry becomes tiny / huge; ranking must not change
+    for k in (20, -20):
+        out += list(spaces.with_methods(spaces.dev_configs(dict(pB4, scale_pow=k), 1, ['treatment_geos_range', 'n_geos_max', 'n_designs', 'budget_range'],
+                                                           base_kw={'n_designs': 2}, k_values=(1, 5), with_matrix_level=False),
+                                        ('exhaustive_search',)))
     out += spaces.reuse_space(pB4, INCLUDE, {'n_designs': 2}, methods=('exhaustive_search',), d=2 if tier == 'thorough' else 1)
     return out
 
